@@ -32,7 +32,7 @@ Definition run_files (c : jcfg) (start merged_end : N) (merged forked : list blo
          end in
   (fevs,
    match r with
-   | RsOk => if negb (j_stop c =? 0) && ((j_stop c / j_bundle c + 1) * j_bundle c <=? merged_end) then JStop else JNil
+   | RsOk => file_end c merged_end
    | RsResolveErr => JInvalidArg
    | RsNotImplemented => JOther
    | RsFuel => JFuel
